@@ -92,6 +92,20 @@ Theorem C17_stops_at_first_nonretryable :
 Proof. exact round_trip_stops_at_first_nonretryable. Qed.
 Print Assumptions C17_stops_at_first_nonretryable.
 
+(* --- refinement to a stateless specification ------------------------------------------ *)
+
+(* For a body that can always be replayed and a context that never ends, Transport.RoundTrip --
+   request state, GetBody counter, script threading, trace -- computes exactly spec_send: result,
+   end instant and the list (instant, bytes received) of all attempts, where attempt i receives
+   the prefix server i reads of the whole body and the pauses are the policy's decisions *)
+Theorem C17_round_trip_refines_spec :
+  forall p bd sc t,
+    wf_body bd -> replayable bd ->
+    let out := round_trip p None bd (init_state bd) sc t in
+    (o_res out, o_time out, attempts (o_trace out)) = spec_send p bd sc t.
+Proof. exact round_trip_refines_spec. Qed.
+Print Assumptions C17_round_trip_refines_spec.
+
 (* --- bodies ---------------------------------------------------------------- *)
 
 (* on attempt i the registry receives exactly what it reads of the complete original
@@ -402,6 +416,11 @@ Example ex_cancel_zero_pause :
                         [mkBeh (OStatus 503 [] 0%N) None 10; mkBeh (OStatus 503 [] 0%N) None 10] 0 in
   o_res out = RCtx /\ o_time out = 5 /\ length (attempts (o_trace out)) = 1%nat.
 Proof. vm_compute. repeat split; reflexivity. Qed.
+
+Example ex_spec :
+  spec_send ex_policy ex_body ex_script 0
+  = (RResp 200 0%N, 1134, [(0, b "manifest"); (110, b "man"); (1130, b "manifest")]).
+Proof. vm_compute. reflexivity. Qed.
 
 (* cancelled in the second pause *)
 Example ex_cancel :
